@@ -239,6 +239,9 @@ func (e *Engine) indexGuards() error {
 			return fmt.Errorf("guarded: %s is not a struct", g.Struct)
 		}
 		muKey := g.Struct + "." + g.Mutex
+		if g.Class == "under" {
+			muKey = g.Mutex
+		}
 		if g.Class == "mutex" {
 			found := false
 			for i := 0; i < st.NumFields(); i++ {
